@@ -101,7 +101,6 @@ Lemma land_max_l x : 0 <= x < W64 -> Z.land MAX64 x = x.
 Proof. intros; rewrite Z.land_comm; now apply land_max_r. Qed.
 
 (* ------------------------------------------------------------ memories *)
-Definition mem_eq (m1 m2 : mem) : Prop := forall a, m1 a = m2 a.
 
 Lemma upd_same m a v : upd m a v a = v.
 Proof. unfold upd; now rewrite Z.eqb_refl. Qed.
